@@ -612,7 +612,7 @@ fn check_type(ty: &Ty, tier: Tier, cnt: &Cnt, coll: &Collector) {
         }
     };
     let mut truncated = false;
-    let mut vals = values(ty, &defs, tier.pick(400, 3000), &mut truncated);
+    let mut vals = values(ty, &defs, tier.pick(1500, 3000), &mut truncated);
     if let Ty::Int(t) = ty {
         // primitive integers: every value of the 8- and 16-bit types, every 2^k, 2^k - 1, 2^k + 1
         // (and their negations) of the wider ones
@@ -822,7 +822,7 @@ pub fn run(tier: Tier) -> i32 {
             "spellings": cnt.spellings.load(Ordering::Relaxed),
             "accepted": cnt.accepted.load(Ordering::Relaxed),
             "refused": cnt.refused.load(Ordering::Relaxed),
-            "value_cap_per_type": tier.pick(400, 3000),
+            "value_cap_per_type": tier.pick(1500, 3000),
             "exhaustive": done == tys.len() && !budget.hit(),
         }),
         assumptions: vec!["the harness's encoder (gast.rs Val::encode) is the documented layout".into(), "values per type are capped (depth-first truncation), the cap is in the evidence".into()],
